@@ -73,6 +73,14 @@ Definition interleave (chans : list (list K)) (n : nat) : list K :=
 Definition eval_mirtk1 (d s : nat) (c : list K) (m : nat) : list K :=
   firstn m (interleave (map (fun o => conv4 (wrow d s o) c) (seq 0 s)) (length c - 3)).
 
+(* default algorithm in N-D: one pass (all (n - 3) s samples of every line, no crop) per axis, x first, crop at the end *)
+Definition mirtk_pass (d s : nat) (c : list K) : list K :=
+  interleave (map (fun o => conv4 (wrow d s o) c) (seq 0 s)) (length c - 3).
+(* spline cells for the subdivision statements: value of the cell starting at coefficient Q, local coordinate u *)
+Definition cellv (d : nat) (u : K) (f : nat -> K) (Q : nat) : K := spl_f (gen_w d u) f Q.
+Definition half_u (second : bool) (u : K) : K := if second then (1 + u) / (1 + 1) else u / (1 + 1).
+Definition half_Q (second : bool) (q : nat) : nat := if second then (2 * q + 2)%nat else (2 * q + 1)%nat.
+
 (* ---- transposed-convolution algorithm ---- *)
 (* cubic_bspline1d(s)[i] = cubic_bspline_value((i - radius) / s), radius = (4 s - 1) // 2; 0 outside the kernel *)
 Definition kerT (s : nat) (i : Z) : K :=
@@ -134,6 +142,12 @@ Definition along_z3 (f : list K -> list K) (c : list (list (list K))) : list (li
   let cols := map (fun j => map (fun i => f (map (fun pl => at2 pl j i) c)) (seq 0 nx)) (seq 0 ny) in
   map (fun k => map (fun row => map (fun cl => nth k cl 0) row) cols)
       (seq 0 (length (nth 0 (nth 0 cols []) []))).
+
+Definition eval_mirtk2 (dx dy sx sy : nat) (c : list (list K)) (mx my : nat) : list (list K) :=
+  firstn my (map (firstn mx) (along_y2 (mirtk_pass dy sy) (along_x2 (mirtk_pass dx sx) c))).
+Definition eval_mirtk3 (dx dy dz sx sy sz : nat) (c : list (list (list K))) (mx my mz : nat) : list (list (list K)) :=
+  firstn mz (map (fun pl => firstn my (map (firstn mx) pl))
+                 (along_z3 (mirtk_pass dz sz) (along_y3 (mirtk_pass dy sy) (along_x3 (mirtk_pass dx sx) c)))).
 
 (* coefficients that are an affine function of the control point position (j - 1) * s (image index units) *)
 Definition affine_coeffs (s n : nat) (a b : K) : list K :=
